@@ -161,7 +161,11 @@ pub fn run(ctx: &Ctx) -> usize {
   let sxyears: Vec<i64> = if ctx.quick() { (0..200).map(|_| rng.range(2, 9997)).chain([1582i64, 641, 9493].into_iter()).collect() } else { (2..=9997).step_by(4).collect() };
   let ndays = if ctx.quick() { 1500 } else { 60000 };
   // days for the hour lists: anywhere outside the reform seams (their lunar dates are C02 findings)
-  let djs: Vec<i64> = (0..ndays).map(|_| crate::windows::sample_day(&mut rng, 1721424 + 40, 5373484 - 40)).collect();
+  let mut djs: Vec<i64> = (0..ndays).map(|_| crate::windows::sample_day(&mut rng, 1721424 + 40, 5373484 - 40)).collect();
+  // the days on both sides of the October-1582 gap (the first slot of a sexagenary day starts at 23:00 of the previous
+  // civil day: for 1582-10-15 that is 1582-10-04), the turn of a century, both ends of the supported range
+  djs.extend(2299150i64..=2299175);
+  djs.extend([2341972i64, 2341973, 2342031, 2342032, 2415020, 2415021, 2451544, 2451545, 1721424 + 41, 5373484 - 41]);
   let yp = crate::windows::deal(years, ctx.threads);
   let lp = crate::windows::deal(lyears, ctx.threads);
   let sp = crate::windows::deal(sxyears, ctx.threads);
